@@ -31,6 +31,11 @@ class Types:
         base = found[0]['elem']['value']
         return base + ('' if formal['dir'] == 'in' else '&')
 
+    def local_type(self, itf_fqn, formal):
+        """The plain value type of a formal (no const, no reference): for local variables."""
+        t = self.formal_type(itf_fqn, formal).rstrip('&').strip()
+        return t[len('const '):] if t.startswith('const ') else t
+
     def reply(self, itf_fqn, ev):
         """(C++ type, kind, count, lo) of the reply."""
         ret = list(ev['ret'])
@@ -172,7 +177,8 @@ def generate(sm, ports):
     xt = []
     for d in decls:
         if d['kind'] == 'extern':
-            v = d['elem']['value']
+            v = d['elem']['value'].rstrip('&').strip()
+            v = v[len('const '):] if v.startswith('const ') else v
             if v.startswith('::xt::') and v[6:] not in xt:
                 xt.append(v[6:])
     out.append('namespace xt {')
